@@ -7,8 +7,14 @@ Local Open Scope N_scope.
 (* ================================================================== 0. the linear-time helpers *)
 Lemma frev_rev l : frev l = rev l.
 Proof. unfold frev. symmetry. apply rev_alt. Qed.
+Lemma h_rtrim_by_eq p l : h_rtrim_by p l = rtrim_by p l.
+Proof. unfold h_rtrim_by, rtrim_by. now rewrite !frev_rev. Qed.
 Lemma h_rtrim_eq l : h_rtrim l = rtrim l.
-Proof. unfold h_rtrim, rtrim. now rewrite !frev_rev. Qed.
+Proof. unfold h_rtrim. apply h_rtrim_by_eq. Qed.
+Lemma rtrim_is_by l : rtrim l = rtrim_by c_isspace l.
+Proof. reflexivity. Qed.
+Lemma ltrim_is_by l : ltrim l = ltrim_by c_isspace l.
+Proof. reflexivity. Qed.
 Lemma h_last_is_eq p l : h_last_is p l = last_is p l.
 Proof. unfold h_last_is, last_is. now rewrite frev_rev. Qed.
 Lemma h_strip_last_eq l : h_strip_last l = strip_last l.
@@ -181,15 +187,35 @@ Qed.
 Lemma ows_is_space c : ref_ows c = c_isspace c.
 Proof. unfold ref_ows, c_isspace. lia. Qed.
 
-Lemma trim_left_ltrim l : ref_trim_left l = ltrim l.
+Lemma trim_left_by ws l : ref_trim_left ws l = ltrim_by ws l.
 Proof.
-  unfold ltrim. induction l as [|c r IH]; cbn [ref_trim_left span]; [reflexivity|].
-  rewrite ows_is_space. destruct (c_isspace c); [|reflexivity].
-  rewrite IH. destruct (span c_isspace r); reflexivity.
+  unfold ltrim_by. induction l as [|c r IH]; cbn [ref_trim_left span]; [reflexivity|].
+  destruct (ws c); [|reflexivity]. rewrite IH. destruct (span ws r); reflexivity.
 Qed.
+Lemma trim_right_by ws l : ref_trim_right ws l = rtrim_by ws l.
+Proof. unfold ref_trim_right, rtrim_by. rewrite trim_left_by. reflexivity. Qed.
+Lemma ref_trim_by ws l : ref_trim ws l = rtrim_by ws (ltrim_by ws l).
+Proof. unfold ref_trim. now rewrite trim_right_by, trim_left_by. Qed.
 
-Lemma trim_right_rtrim l : ref_trim_right l = rtrim l.
-Proof. unfold ref_trim_right, rtrim. rewrite trim_left_ltrim. reflexivity. Qed.
+Lemma span_ext {A} (p q : A -> bool) l : (forall x, p x = q x) -> span p l = span q l.
+Proof. intros H. induction l as [|x l IH]; cbn [span]; [reflexivity|]. now rewrite H, IH. Qed.
+Lemma ltrim_by_ext p q l : (forall x, p x = q x) -> ltrim_by p l = ltrim_by q l.
+Proof. intros H. unfold ltrim_by. now rewrite (span_ext p q l H). Qed.
+Lemma rtrim_by_ext p q l : (forall x, p x = q x) -> rtrim_by p l = rtrim_by q l.
+Proof. intros H. unfold rtrim_by. now rewrite (span_ext p q _ H). Qed.
+
+Lemma trim_right_rtrim l : ref_trim_right ref_ows l = rtrim l.
+Proof. rewrite trim_right_by, rtrim_is_by. apply rtrim_by_ext, ows_is_space. Qed.
+
+(* the model's choice of trimmable bytes is the reference's *)
+Lemma model_trim_eq nm id n0 after : canon_name nm = (id, n0) ->
+  h_rtrim_by (value_ws id) (ltrim_by (value_ws id) after) = ref_trim (ref_value_ws nm) after.
+Proof.
+  intros Hc. rewrite h_rtrim_by_eq, ref_trim_by. unfold value_ws, ref_value_ws, ref_is_framing_name, framing_id.
+  rewrite Hc. cbn [fst]. destruct ((id =? ID_CL) || (id =? ID_TE)); [reflexivity|].
+  rewrite (ltrim_by_ext c_isspace ref_ows) by (intros; symmetry; apply ows_is_space).
+  apply rtrim_by_ext. intros; symmetry; apply ows_is_space.
+Qed.
 
 Lemma before_colon_span l :
   ref_before_colon l =
@@ -233,17 +259,19 @@ Proof.
   apply andb_prop in H as [_ H]. apply andb_prop in H as [H _]. eauto.
 Qed.
 
-Lemma rtrim_snoc_nonspace a c : c_isspace c = false -> rtrim (a ++ [c]) = a ++ [c].
+Lemma rtrim_by_snoc_non p a c : p c = false -> rtrim_by p (a ++ [c]) = a ++ [c].
 Proof.
-  intros H. unfold rtrim. rewrite rev_unit. cbn [span]. rewrite H. cbn [snd].
-  change (c :: rev a) with (rev (a ++ [c]) ) at 1 || idtac. rewrite <- (rev_unit a c). apply rev_involutive.
+  intros H. unfold rtrim_by. rewrite rev_unit. cbn [span]. rewrite H. cbn [snd].
+  rewrite <- (rev_unit a c). apply rev_involutive.
 Qed.
 
-Lemma rtrim_no_trail l : last_is c_isspace l = false -> rtrim l = l.
+Lemma rtrim_by_no_trail p l : last_is p l = false -> rtrim_by p l = l.
 Proof.
   destruct (list_snoc_cases l) as [->|(a & c & ->)]; [reflexivity|].
-  rewrite last_is_snoc. apply rtrim_snoc_nonspace.
+  rewrite last_is_snoc. apply rtrim_by_snoc_non.
 Qed.
+Lemma rtrim_no_trail l : last_is c_isspace l = false -> rtrim l = l.
+Proof. apply rtrim_by_no_trail. Qed.
 
 (* HttpHeaderEntry::parse is the reference field-line split followed by the table lookup *)
 Lemma entry_parse_ref req text :
@@ -258,7 +286,6 @@ Proof.
   destruct (span (fun c => negb (c =? 58)) text) as [name rest]. cbn [fst snd].
   destruct rest as [|colon after]; [reflexivity|].
   rewrite h_last_is_eq, !h_rtrim_eq, trim_right_rtrim.
-  unfold ref_trim. rewrite trim_right_rtrim, trim_left_ltrim.
   destruct (lenN name =? 0) eqn:E0.
   { assert (name = []) by (destruct name; [reflexivity|cbn [lenN] in E0; lia]). subst name.
     destruct req; reflexivity. }
@@ -269,13 +296,15 @@ Proof.
     match nm with
     | [] => None
     | _ :: _ => if negb (forallb cs_TCHAR nm) then None
-                else if 65534 <? lenN (rtrim (ltrim after)) then None
                 else let '(id, n0) := canon_name nm in
-                     Some {| he_id := id; he_name := n0; he_value := c_str (rtrim (ltrim after)) |}
+                     let trimmable := value_ws id in
+                     let value := h_rtrim_by trimmable (ltrim_by trimmable after) in
+                     if 65534 <? lenN value then None
+                     else Some {| he_id := id; he_name := n0; he_value := c_str value |}
     end =
     match (if (lenN nm =? 0) || negb (forallb cs_TCHAR nm) then None
-           else if 65534 <? lenN (rtrim (ltrim after)) then None
-           else Some (nm, rtrim (ltrim after))) with
+           else if 65534 <? lenN (ref_trim (ref_value_ws nm) after) then None
+           else Some (nm, ref_trim (ref_value_ws nm) after)) with
     | Some (name0, value) =>
       Some {| he_id := fst (canon_name name0); he_name := snd (canon_name name0); he_value := c_str value |}
     | None => None
@@ -283,8 +312,10 @@ Proof.
   { intros nm. destruct nm as [|x xs]; [reflexivity|].
     replace (lenN (x :: xs) =? 0) with false by (cbn [lenN]; lia). cbn [orb].
     destruct (negb (forallb cs_TCHAR (x :: xs))); [reflexivity|].
-    destruct (65534 <? lenN (rtrim (ltrim after))); [reflexivity|].
-    destruct (canon_name (x :: xs)); reflexivity. }
+    destruct (canon_name (x :: xs)) as [id n0] eqn:Ec. cbv zeta.
+    rewrite (model_trim_eq (x :: xs) id n0 after Ec).
+    destruct (65534 <? lenN (ref_trim (ref_value_ws (x :: xs)) after)); [reflexivity|].
+    rewrite Ec. reflexivity. }
   destruct (last_is c_isspace name) eqn:El.
   - destruct req.
     + (* request: rejected by the model; the name is not a token *)
@@ -312,6 +343,8 @@ Lemma NN_span_snd p l : NN l -> NN (snd (span p l)).
 Proof. intros H. rewrite <- (span_app p l) in H. now apply NN_app in H as [_ H]. Qed.
 Lemma NN_span_fst p l : NN l -> NN (fst (span p l)).
 Proof. intros H. rewrite <- (span_app p l) in H. now apply NN_app in H as [H _]. Qed.
+Lemma NN_trim ws l : NN l -> NN (ref_trim ws l).
+Proof. intros H. rewrite ref_trim_by. unfold rtrim_by, ltrim_by. now apply NN_rev, NN_span_snd, NN_rev, NN_span_snd. Qed.
 Lemma NN_ltrim l : NN l -> NN (ltrim l).
 Proof. apply NN_span_snd. Qed.
 Lemma NN_rtrim l : NN l -> NN (rtrim l).
@@ -351,7 +384,7 @@ Proof.
   apply before_colon_parts in E. subst text. apply NN_app in H as [_ H].
   assert (Hv : NN rv) by (unfold NN in *; cbn [forallb] in H; now apply andb_prop in H as [_ H]).
   destruct (_ || _); [discriminate|]. destruct (65534 <? _); [discriminate|]. intros [= <- <-].
-  unfold ref_trim. rewrite trim_right_rtrim, trim_left_ltrim. now apply NN_rtrim, NN_ltrim.
+  now apply NN_trim.
 Qed.
 
 (* accumulated state of the lines already read into the current field *)
@@ -512,40 +545,40 @@ Proof.
 Qed.
 
 (* ================================================================== 6. trimming and names, declaratively *)
-Lemma ltrim_exact l : exists a, l = a ++ ltrim l /\ forallb c_isspace a = true /\
-  match ltrim l with c :: _ => c_isspace c = false | [] => True end.
+Lemma ltrim_by_exact p l : exists a, l = a ++ ltrim_by p l /\ forallb p a = true /\
+  match ltrim_by p l with c :: _ => p c = false | [] => True end.
 Proof.
-  exists (fst (span c_isspace l)). unfold ltrim. split; [symmetry; apply span_app|].
+  exists (fst (span p l)). unfold ltrim_by. split; [symmetry; apply span_app|].
   split; [apply span_all|apply span_stop].
 Qed.
 
 Lemma last_is_rev_head p l : last_is p l = match rev l with c :: _ => p c | [] => false end.
 Proof. reflexivity. Qed.
 
-Lemma rtrim_exact l : exists b, l = rtrim l ++ b /\ forallb c_isspace b = true /\
-  last_is c_isspace (rtrim l) = false.
+Lemma rtrim_by_exact p l : exists b, l = rtrim_by p l ++ b /\ forallb p b = true /\
+  last_is p (rtrim_by p l) = false.
 Proof.
-  destruct (ltrim_exact (rev l)) as (a & Ha & Hs & Hf). exists (rev a). unfold rtrim. fold (ltrim (rev l)).
+  destruct (ltrim_by_exact p (rev l)) as (a & Ha & Hs & Hf). exists (rev a). unfold rtrim_by. fold (ltrim_by p (rev l)).
   split; [|split].
   - rewrite <- rev_app_distr, <- Ha. symmetry; apply rev_involutive.
   - rewrite forallb_forall in *. intros x Hx. apply Hs. now apply in_rev.
-  - rewrite last_is_rev_head, rev_involutive. destruct (ltrim (rev l)); [reflexivity|exact Hf].
+  - rewrite last_is_rev_head, rev_involutive. destruct (ltrim_by p (rev l)); [reflexivity|exact Hf].
 Qed.
+Lemma rtrim_exact l : exists b, l = rtrim l ++ b /\ forallb c_isspace b = true /\
+  last_is c_isspace (rtrim l) = false.
+Proof. apply rtrim_by_exact. Qed.
 
-(* the stored value is the maximal white-space-free-ended infix *)
-Theorem ref_trim_exact l : exists a b, l = a ++ ref_trim l ++ b /\
-  forallb ref_ows a = true /\ forallb ref_ows b = true /\
-  match ref_trim l with c :: _ => ref_ows c = false | [] => True end /\
-  last_is ref_ows (ref_trim l) = false.
+(* the stored value is the maximal infix without trimmable bytes at its ends *)
+Theorem ref_trim_exact ws l : exists a b, l = a ++ ref_trim ws l ++ b /\
+  forallb ws a = true /\ forallb ws b = true /\
+  match ref_trim ws l with c :: _ => ws c = false | [] => True end /\
+  last_is ws (ref_trim ws l) = false.
 Proof.
-  unfold ref_trim. rewrite trim_right_rtrim, trim_left_ltrim.
-  destruct (ltrim_exact l) as (a & Ha & Hsa & Hfa). destruct (rtrim_exact (ltrim l)) as (b & Hb & Hsb & Hlb).
-  exists a, b. split; [now rewrite <- Hb|].
-  split; [erewrite forallb_eqf; [exact Hsa|apply ows_is_space]|].
-  split; [erewrite forallb_eqf; [exact Hsb|apply ows_is_space]|]. split.
-  - destruct (rtrim (ltrim l)) as [|c r] eqn:E; [exact I|]. rewrite ows_is_space.
-    rewrite Hb in Hfa. cbn [app] in Hfa. exact Hfa.
-  - rewrite last_is_rev_head in *. destruct (rev (rtrim (ltrim l))); [reflexivity|]. now rewrite ows_is_space.
+  rewrite ref_trim_by.
+  destruct (ltrim_by_exact ws l) as (a & Ha & Hsa & Hfa).
+  destruct (rtrim_by_exact ws (ltrim_by ws l)) as (b & Hb & Hsb & Hlb).
+  exists a, b. split; [now rewrite <- Hb|]. split; [exact Hsa|]. split; [exact Hsb|]. split; [|exact Hlb].
+  destruct (rtrim_by ws (ltrim_by ws l)) as [|c r] eqn:E; [exact I|]. rewrite Hb in Hfa. cbn [app] in Hfa. exact Hfa.
 Qed.
 
 Lemma tbl_find_spec tbl name :
@@ -820,7 +853,7 @@ Proof. vm_compute. reflexivity. Qed.
 Definition stor (e : hentry) : Prop :=
   he_name e <> [] /\ forallb cs_TCHAR (he_name e) = true /\ lenN (he_name e) <= 65534 /\
   canon_name (he_name e) = (he_id e, he_name e) /\ NN (he_value e) /\ lenN (he_value e) <= 65534 /\
-  ltrim (he_value e) = he_value e /\ rtrim (he_value e) = he_value e.
+  ltrim_by (value_ws (he_id e)) (he_value e) = he_value e /\ rtrim_by (value_ws (he_id e)) (he_value e) = he_value e.
 (* its value has no line structure left (always the case for messages that went through the unfolding pass) *)
 Definition single_line (v : bytes) : Prop := forallb (fun c => negb (c =? 13) && negb (c =? 10)) v = true.
 
@@ -843,16 +876,16 @@ Qed.
 Lemma lenN_rtrim l : lenN (rtrim l) <= lenN l.
 Proof. destruct (rtrim_exact l) as (b & Hb & _). rewrite Hb at 2. rewrite lenN_app. lia. Qed.
 
-Lemma rtrim_idem l : rtrim (rtrim l) = rtrim l.
-Proof. destruct (rtrim_exact l) as (_ & _ & _ & H). now apply rtrim_no_trail. Qed.
+Lemma rtrim_by_idem p l : rtrim_by p (rtrim_by p l) = rtrim_by p l.
+Proof. destruct (rtrim_by_exact p l) as (_ & _ & _ & H). now apply rtrim_by_no_trail. Qed.
 
-Lemma ltrim_nonspace c r : c_isspace c = false -> ltrim (c :: r) = c :: r.
-Proof. intros H. unfold ltrim. cbn [span]. now rewrite H. Qed.
+Lemma ltrim_by_non p c r : p c = false -> ltrim_by p (c :: r) = c :: r.
+Proof. intros H. unfold ltrim_by. cbn [span]. now rewrite H. Qed.
 
-Lemma ltrim_rtrim_ltrim x : ltrim (rtrim (ltrim x)) = rtrim (ltrim x).
+Lemma ltrim_rtrim_ltrim_by p x : ltrim_by p (rtrim_by p (ltrim_by p x)) = rtrim_by p (ltrim_by p x).
 Proof.
-  destruct (ltrim_exact x) as (a & _ & _ & Hf). destruct (rtrim_exact (ltrim x)) as (b & Hb & _).
-  destruct (rtrim (ltrim x)) as [|c r]; [reflexivity|]. rewrite Hb in Hf. cbn [app] in Hf. now apply ltrim_nonspace.
+  destruct (ltrim_by_exact p x) as (a & _ & _ & Hf). destruct (rtrim_by_exact p (ltrim_by p x)) as (b & Hb & _).
+  destruct (rtrim_by p (ltrim_by p x)) as [|c r]; [reflexivity|]. rewrite Hb in Hf. cbn [app] in Hf. now apply ltrim_by_non.
 Qed.
 
 Lemma ref_split_stor req text name value : NN text -> ref_split req text = Some (name, value) ->
@@ -860,18 +893,18 @@ Lemma ref_split_stor req text name value : NN text -> ref_split req text = Some 
 Proof.
   intros Hnn H. pose proof (ref_split_NN _ _ _ _ Hnn H) as Hv. unfold ref_split in H.
   destruct (ref_before_colon text) as [[rn rv]|]; [|discriminate].
-  set (nm0 := if req then rn else ref_trim_right rn) in *.
+  set (nm0 := if req then rn else ref_trim_right ref_ows rn) in *.
   destruct (lenN nm0 =? 0) eqn:E0; [discriminate|]. destruct (65534 <? lenN rn) eqn:E1; [discriminate|].
   destruct (forallb cs_TCHAR nm0) eqn:Et; [|discriminate]. cbn [orb negb] in H.
-  destruct (65534 <? lenN (ref_trim rv)) eqn:E2; [discriminate|]. injection H as <- <-.
+  destruct (65534 <? lenN (ref_trim (ref_value_ws nm0) rv)) eqn:E2; [discriminate|]. injection H as <- <-.
   assert (Hl : lenN nm0 <= 65534).
   { subst nm0. destruct req; [lia|]. rewrite trim_right_rtrim. pose proof (lenN_rtrim rn). lia. }
   assert (Hne : nm0 <> []) by (intros ->; cbn [lenN] in E0; lia).
   destruct (canon_name nm0) as [id nm] eqn:Ec. cbn [fst snd].
   destruct (canon_stor nm0 id nm Ec Hne Et Hl) as (A & B & C & D).
   unfold stor. cbn [he_id he_name he_value]. repeat split; try assumption; [lia| |].
-  - unfold ref_trim. rewrite trim_right_rtrim, trim_left_ltrim. apply ltrim_rtrim_ltrim.
-  - unfold ref_trim. rewrite trim_right_rtrim, trim_left_ltrim. apply rtrim_idem.
+  - rewrite <- (model_trim_eq nm0 id nm rv Ec), h_rtrim_by_eq. apply ltrim_rtrim_ltrim_by.
+  - rewrite <- (model_trim_eq nm0 id nm rv Ec), h_rtrim_by_eq. apply rtrim_by_idem.
 Qed.
 
 Lemma process_stor relaxed req : forall gs es, Forall (Forall NN) gs -> ref_process relaxed req gs = Some es ->
@@ -983,15 +1016,17 @@ Proof.
     assert (Hlast : last_is c_isspace (he_name e) = false).
     { destruct (last_is c_isspace (he_name e)) eqn:El; [|reflexivity].
       destruct (last_is_forall _ _ _ Ht El) as (c & Hc1 & Hc2). destruct (tchar_facts c Hc1) as (A & _). congruence. }
-    replace (if req then he_name e else ref_trim_right (he_name e)) with (he_name e)
+    replace (if req then he_name e else ref_trim_right ref_ows (he_name e)) with (he_name e)
       by (destruct req; [reflexivity|rewrite trim_right_rtrim; symmetry; now apply rtrim_no_trail]).
     replace (lenN (he_name e) =? 0) with false by (destruct (he_name e); [contradiction|cbn [lenN]; lia]).
     replace (65534 <? lenN (he_name e)) with false by lia. rewrite Ht. cbn [orb negb].
-    assert (Hv : ref_trim (32 :: he_value e) = he_value e).
-    { unfold ref_trim. rewrite trim_right_rtrim, trim_left_ltrim.
-      replace (ltrim (32 :: he_value e)) with (ltrim (he_value e))
-        by (unfold ltrim; cbn [span]; change (c_isspace 32) with true; cbv iota; destruct (span c_isspace (he_value e)); reflexivity).
-      now rewrite Hlt, Hrt. }
+    assert (Hv : ref_trim (ref_value_ws (he_name e)) (32 :: he_value e) = he_value e).
+    { rewrite <- (model_trim_eq (he_name e) (he_id e) (he_name e) _ Hc), h_rtrim_by_eq.
+      replace (ltrim_by (value_ws (he_id e)) (32 :: he_value e)) with (ltrim_by (value_ws (he_id e)) (he_value e)).
+      - now rewrite Hlt, Hrt.
+      - unfold ltrim_by. cbn [span]. replace (value_ws (he_id e) 32) with true
+          by (unfold value_ws; destruct (framing_id (he_id e)); reflexivity).
+        destruct (span (value_ws (he_id e)) (he_value e)); reflexivity. }
     rewrite Hv. replace (65534 <? lenN (he_value e)) with false by lia.
     rewrite Hc. cbn [lenN existsb]. unfold ref_has_bare_cr. rewrite Hb, Hnc. cbn [orb andb N.ltb].
     destruct e; reflexivity.
